@@ -118,9 +118,14 @@ class Cx:
         """Count examined sites / paths / functions that are not obligations themselves."""
         self.evaluations += n
 
-    def floor(self, name, found, minimum):
-        """Fail closed when fewer instances than were confirmed by hand are found."""
-        self.floors[name] = {"found": found, "floor": minimum}
+    def floor(self, name, found, confirmed):
+        """Fail closed when far fewer instances are found than were confirmed by hand on the pinned tree.
+        `confirmed` is the hand-confirmed count. Small counts (<= 3) are structural (distinct roles) and required
+        in full; for larger counts a legitimate refactoring can merge duplicates or remove a feature, so the check
+        refuses to pass only when more than half of the confirmed instances have disappeared - a matcher that has
+        gone blind is still caught, a de-duplication is not reported as an error."""
+        minimum = confirmed if confirmed <= 3 else (confirmed + 1) // 2
+        self.floors[name] = {"found": found, "confirmed_on_pinned_tree": confirmed, "floor": minimum}
         if found < minimum:
             raise factsmod.CheckError("floor not met for %s: found %d < %d (a rule matching too few sites "
                                       "would pass vacuously)" % (name, found, minimum))
@@ -156,7 +161,7 @@ def write_evidence(pid, tier, seed, mod, cx, wall, violations, known_matched, er
         "checker_cmd": "./check %s --tier %s" % (pid, tier),
         "trusted_base": ["rustc nightly MIR construction (optimized_mir at -Zmir-opt-level=0) and Instance::try_resolve",
                          "the mirfacts driver's rendering of MIR", "syn 2 parser (template/attribute facts)",
-                         "swc_ecma_parser (TypeScript facts)", "the rule code under /verif/rules"],
+                         "rules/tsfacts.py tokenizer (TypeScript tables of cache.ts)", "the rule code under /verif/rules"],
         "tree_hash": cx.tree_hash if cx else None,
         "floors": cx.floors if cx else {},
         "known_findings_matched": known_matched,
